@@ -2,6 +2,7 @@ import SciVerif.Tie.Consts
 import SciVerif.Props.C14
 import SciVerif.Tie.Pins
 /-! Tie A obligations for C14 on the current source. -/
+-- PIN-ALSO: Scipipe.BaseProcess_Name
 namespace SciVerif.Tie
 open SciVerif.Generated
 
@@ -69,12 +70,14 @@ theorem c14_split_on_source (abs : Bool) (segs : List Str.S) :
 
 
 
+
 -- BEGIN PINS (written by bin/mkpins; do not edit by hand)
 /-- the Go functions this property's model and obligations were written against have exactly the
 pinned skeletons (SHA-256 prefix of the atom list) -/
 theorem pinned_skeletons_c14 :
     pinsOk
     [("Scipipe.#decls", "08e57e98702ecd70"),
+     ("Scipipe.BaseProcess_Name", "859baffae60539bd"),
      ("Scipipe.Task_TempDir", "6d565a2ddd3d0eb2"),
      ("Scipipe.applyPathModifiers", "8f319e3baa487b4a"),
      ("Scipipe.getShellCommandPlaceHolderRegex", "2974b35d7f6e39cc"),
